@@ -428,8 +428,13 @@ fn gen_branch_case(rng: &mut Rng) -> Case {
         // its end — is always falsy: `while not p` would not end)
         wrapper = 4;
     }
+    // the predicate's name: mostly `p`; one case in three a name that is also a boolean literal
+    // or an operator word of the condition language (a registered command in first position is
+    // RUN, whatever its name), called with two arguments or with none
+    let pname: &str = if rng.chance(1, 3) { rng.pick_s(&["true", "false", "True", "FALSE", "yes", "0", "1"]) } else { "p" };
+    let pargs: Vec<String> = if pname != "p" && rng.chance(1, 2) { vec![] } else { vec![s("x"), s("y z")] };
     let mut ls: Vec<Vec<String>> = vec![];
-    ls.push(line(None, if rng.chance(1, 2) { "fn" } else { "function" }, &[s("p")]));
+    ls.push(line(None, if rng.chance(1, 2) { "fn" } else { "function" }, &[s(pname)]));
     ls.push(line(Some("q"), "set", &[s("${o}")]));
     match ending {
         0 => {}
@@ -445,8 +450,9 @@ fn gen_branch_case(rng: &mut Rng) -> Case {
     }
     ls.push(line(None, "end", &[]));
     // direct call: its output is the oracle
-    ls.push(line(Some("d"), "p", &[s("x"), s("y z")]));
-    let call = vec![s("p"), s("x"), s("y z")];
+    ls.push(line(Some("d"), pname, &pargs));
+    let mut call = vec![s(pname)];
+    call.extend(pargs.clone());
     match wrapper {
         0 => {
             ls.push(line(None, "if", &call));
@@ -456,7 +462,8 @@ fn gen_branch_case(rng: &mut Rng) -> Case {
             ls.push(line(None, "end", &[]));
         }
         1 => {
-            ls.push(line(None, "if", &[s("false")]));
+            // (`no`: a falsy literal that is never the predicate's name)
+            ls.push(line(None, "if", &[s(if pname == "p" { "false" } else { "no" })]));
             ls.push(line(Some("b"), "set", &[s("first")]));
             ls.push(line(None, "elseif", &call));
             ls.push(line(Some("b"), "set", &[s("then")]));
@@ -503,7 +510,7 @@ fn gen_branch_case(rng: &mut Rng) -> Case {
             // two-level: the predicate is called by another function used as the condition
             ls.insert(0, line(None, "end", &[]));
             ls.insert(0, line(None, "return", &[s("${t}")]));
-            ls.insert(0, line(Some("t"), "p", &[s("x"), s("y z")]));
+            ls.insert(0, line(Some("t"), pname, &pargs));
             ls.insert(0, line(None, "fn", &[s("outer")]));
             ls.push(line(None, "if", &[s("outer")]));
             ls.push(line(Some("b"), "set", &[s("then")]));
@@ -519,7 +526,7 @@ fn gen_branch_case(rng: &mut Rng) -> Case {
     let o = rng.pick_s(&OUTS);
     let r = rng.pick_s(&OUTS);
     let vars = format!("{}={},{}={}", enc_str("o"), enc_str(o), enc_str("r"), enc_str(r));
-    Case { req: format!("c04raw {} {} 600", toks.join(";"), vars), in_domain: true, nontrivial: true, tags: vec!["branch", ["fall-off-end", "bare-return", "return-value", "return-removed-variable", "return-two-words"][ending], ["if", "elseif", "not", "while", "if-not", "while-not", "if-two-level"][wrapper]] }
+    Case { req: format!("c04raw {} {} 600", toks.join(";"), vars), in_domain: true, nontrivial: true, tags: vec!["branch", ["fall-off-end", "bare-return", "return-value", "return-removed-variable", "return-two-words"][ending], ["if", "elseif", "not", "while", "if-not", "while-not", "if-two-level"][wrapper], if pname == "p" { "plain-name" } else if pargs.is_empty() { "literal-name-no-args" } else { "literal-name" }] }
 }
 
 fn truthy(v: Option<&String>) -> bool {
